@@ -56,6 +56,7 @@ type ExpNet struct {
 	Net    string
 	Type   string
 	IfName string
+	Named  bool // the annotation entry names the interface (otherwise eth<i>, or kubelet's name for the first)
 }
 
 // PortDef is a container port of a pod.
@@ -79,6 +80,7 @@ type PodDef struct {
 	// Expect is what the property text prescribes for this pod given the static configuration.
 	Expect     []ExpNet
 	ExpectFail bool   // the annotation names a network that is not configured: ADD must fail without invoking anything
+	KubeIf     string // the interface name kubelet passes in CNI_IFNAME for this pod's sandboxes
 	Hostile    bool   // C18: carries hostile annotations or ports
 	AnnForm    string // "none", "list", "json"
 	Sandboxes  int    // how many sandboxes kubelet may create for it during the run
@@ -273,6 +275,7 @@ func genPod(c *core.Choices, cfg *Config, idx int, withPorts bool) *PodDef {
 		}
 	}
 	p.WantENI = c.Prob(1, 4)
+	p.KubeIf = pick(c, []string{"eth0", "eth0", "eth0", "ens5", "enp0s3"})
 	type sel struct{ net, ifname string }
 	var sels []sel
 	switch c.Choose(5) {
@@ -329,9 +332,10 @@ func genPod(c *core.Choices, cfg *Config, idx int, withPorts bool) *PodDef {
 			p.Annotations[annNetworks] = string(b)
 		}
 		for i, s := range sels {
-			e := ExpNet{Net: s.net, IfName: "eth0"}
+			e := ExpNet{Net: s.net, IfName: p.KubeIf}
 			if i > 0 {
 				e.IfName = s.ifname
+				e.Named = s.ifname != ""
 				if e.IfName == "" {
 					e.IfName = fmt.Sprintf("eth%d", i)
 				}
@@ -339,13 +343,17 @@ func genPod(c *core.Choices, cfg *Config, idx int, withPorts bool) *PodDef {
 			p.Expect = append(p.Expect, e)
 		}
 	} else if p.WantENI && cfg.ENINet != "" {
-		p.Expect = []ExpNet{{Net: cfg.ENINet, IfName: "eth0"}}
+		p.Expect = []ExpNet{{Net: cfg.ENINet, IfName: p.KubeIf}}
 		if cfg.net(cfg.ENINet) == nil {
 			p.ExpectFail = true
 		}
 	} else {
 		for i, n := range cfg.DefaultNets {
-			p.Expect = append(p.Expect, ExpNet{Net: n, IfName: fmt.Sprintf("eth%d", i)})
+			ifn := fmt.Sprintf("eth%d", i)
+			if i == 0 {
+				ifn = p.KubeIf
+			}
+			p.Expect = append(p.Expect, ExpNet{Net: n, IfName: ifn})
 		}
 		if len(cfg.DefaultNets) == 0 {
 			p.ExpectFail = true
@@ -584,6 +592,21 @@ func genLeftovers(c *core.Choices, cfg *Config) {
 	}
 	if c.Prob(1, 3) {
 		cfg.Files = append(cfg.Files, FileDef{Path: gcDirs[1] + "/tmpdir", Dir: true})
+	}
+	// files that belong to no container, in every directory the collectors walk
+	for i, d := range gcDirs {
+		if c.Prob(1, 3) {
+			cfg.Files = append(cfg.Files, FileDef{Path: d + "/" + []string{"notes.txt", "lock", ".keep"}[i], Data: pick(c, []string{"", "x", "[]"})})
+		}
+	}
+	for i, d := range ipDirs {
+		if c.Prob(1, 3) {
+			// an IP-named file whose content names nothing the runtime knows, and a file that is no IP at all
+			cfg.Files = append(cfg.Files, FileDef{Path: fmt.Sprintf("%s/172.16.9.%d", d, 50+i), Data: pick(c, []string{"not-a-container", "not-a-container\neth0", "\n"})})
+		}
+		if c.Prob(1, 3) {
+			cfg.Files = append(cfg.Files, FileDef{Path: d + "/" + []string{"last_reserved_ip.1", "README"}[i], Data: "172.16.9.9"})
+		}
 	}
 	for _, d := range append(append([]string{}, gcDirs...), ipDirs...) {
 		if c.Prob(2, 3) {
